@@ -26,6 +26,7 @@ TRUSTED_BASE = ["os.chdir / pathlib for the working-directory dimension"]
 
 F1 = """/* header of f1 */
 #include 'sub/inc'
+#include 'sub/inc2'
 // first comment
 alpha  3;
 beta  "$alpha + $gamma";
@@ -41,7 +42,8 @@ nested
 Zkey  true;
 bkey  'b';
 """
-INC = "gamma  4;\n// comment in include\nnested { fromInc 5; }\n"
+INC = "gamma  4;\n// comment in include\nnested { fromInc 5; }\nshared  1;\n"
+INC2 = "gamma  40;\nshared  2;\nonlyTwo  22;\n"
 F2 = '{"#include": "sub/inc", "j1": 1, "j2": "$gamma", "j3": {"b": "text", "a": [1, 2.5]}}'
 F3 = "fk 1;\n// foam comment\nfsub { v (1 2 3); }\n"
 WDICT = {"w1": 1, "w2": "two words", "w3": {"b": [1, 2], "a": None}, 5: "int key"}
@@ -52,6 +54,7 @@ def setup_tree(root: Path):
     (root / "other").mkdir()
     (root / "f1").write_text(F1)
     (root / "sub" / "inc").write_text(INC)
+    (root / "sub" / "inc2").write_text(INC2)
     (root / "f2.json").write_text(F2)
     (root / "f3.foam").write_text(F3)
 
@@ -111,7 +114,7 @@ def do_op(root: Path, op: str, spelling: str, out_tag: str):
 PREFIX_OPS = ["read1", "read2", "read3", "write", "parse", "dumpload", "reset", "read1o"]
 OBSERVED = ["read1", "read1o", "read1n", "read2", "read3", "write", "writeo", "parse", "parseo", "parsej", "dumpload"]
 CWDS = [".", "sub", "sub/deep", "other"]
-COUNTERS = [-1, 5, 999990, 999994, 999997, 999999]
+COUNTERS = [-1, 5, 999990, 999992, 999993, 999994, 999995, 999997, 999999]
 
 
 def run_scenario(case: dict):
@@ -195,7 +198,7 @@ KNOWN_PREDICATES = {"C08-order-across-counter-wrap": order_wrap,
 def model_ids(ctx):
     """the model reproduces the exact placeholder ids (incl. the wrap) of a read at preset counter values"""
     dictIO = native.dictio()
-    text = F1.replace("#include 'sub/inc'\n", "")
+    text = F1.replace("#include 'sub/inc'\n", "").replace("#include 'sub/inc2'\n", "")
     for cval in [-1, 0, 5, 123456, 999990, 999995, 999998, 999999]:
         native.set_counter(cval)
         il = native.impl_parse_line(text)
